@@ -1054,6 +1054,20 @@ def check(ctx):
         o['rule'] = 'C18.REDUNDANT(' + o['rule'] + ')'
     check_upgrade(ctx)
     check_read_first(ctx)
+    # the converter and the effective-policy generator write the operator's
+    # value through the sample formatter: the rule line it produces is
+    # `"name": <check string>` of the rule it is given, verbatim (= C17.RULE-
+    # LINE) - nothing re-reads the value as a template
+    def _rule_line(ctx):
+        from . import c17
+        try:
+            sanitizer, ok = c17.check_sanitizer(ctx)
+            fmt = c17.check_consts(ctx)
+            c17.check_lines(ctx, fmt, sanitizer, ok)
+        except AnalysisError as e:
+            ctx.assume('C18.KEEP-OVERRIDE(C17.RULE-LINE) not decided (C17 '
+                       'declines: %s)' % str(e)[:120])
+    ctx.borrow('C18.KEEP-OVERRIDE', _rule_line, only=['C17.RULE-LINE'])
     # the upgrade tool moves an override to the new name because the
     # enforcer lets an old-name override govern the new policy (C11.TABLE)
     from . import c11
